@@ -18,7 +18,8 @@ def shapeOf (rf : RunFacts) : RunShape :=
     outerAfter := rf.outerWritesAfter != 0,
     recovers := rf.recovers != 0,
     evmAfterWrite := rf.pathsTruncated || rf.paths.any evmAfterW,
-    dropsActionError := rf.actionErrorDropped != 0 }
+    dropsActionError := rf.actionErrorDropped != 0,
+    outerOnError := rf.outerWritesOnError != 0 }
 
 /-- the closure re-binds its ctx to a finite gas meter: store access inside the native action can panic with out-of-gas -/
 def metered (rf : RunFacts) : Bool := rf.ctxRebinds.any (fun s => s == "WithGasMeter")
